@@ -126,7 +126,7 @@ def main():
             op = TriangularInv(concrete_operator("Triangular", c, rng))
             ref = reference_dense(op)
         else:
-            c.setdefault("square", kind in ("KronSum",))
+            c.setdefault("square", kind in ("KronSum",) or (kind == "Sum" and t % 2 == 0))
             op = concrete_operator(kind, c, rng)
             ref = reference_dense(op)
         tried += 1
